@@ -12,6 +12,7 @@ pub mod c04;
 pub mod c05;
 pub mod c09;
 pub mod c10;
+pub mod c12;
 pub mod c13;
 pub mod c18;
 pub mod c19;
@@ -268,6 +269,7 @@ pub fn dispatch(cfg: &RunCfg, rep: &mut Report) -> bool {
         "C05" => c05::run(cfg, rep),
         "C09" => c09::run(cfg, rep),
         "C10" => c10::run(cfg, rep),
+        "C12" => c12::run(cfg, rep),
         "C13" => c13::run(cfg, rep),
         "C18" => c18::run(cfg, rep),
         "C19" => c19::run(cfg, rep),
